@@ -16,7 +16,7 @@ trap 'rm -rf "$M"' EXIT
 rsync -a --exclude .git /repo/ $M/repo/
 pkgdir() { case "$(grep -m1 '^package ' "$1" | awk '{print $2}')" in
   mux|mux_test) echo . ;; tree|tree_test) echo internal/tree ;; syntax|syntax_test) echo internal/syntax ;;
-  types|types_test) echo types ;; trace|trace_test) echo internal/trace ;; *) echo . ;; esac; }
+  types|types_test) echo types ;; std|std_test) echo examples/std ;; ctx|ctx_test) echo examples/ctx ;; trace|trace_test) echo internal/trace ;; *) echo . ;; esac; }
 demos=""
 for f in $SRC/demo$N/*.go; do d=$(pkgdir $f); cp $f $M/repo/$d/; demos="$demos $d"; done
 demos=$(echo $demos | tr ' ' '\n' | sort -u | tr '\n' ' ')
